@@ -119,8 +119,7 @@ class Buffer:
                 #         else: Something quite wrong has gone? When we accept ingest we should make sure
                 #         that all buffers have capacity below a particular threshold
 
-                if ((self.hot[b].current_capacity + self._data_left_to_transfer)
-                      / self.hot[b].total_capacity < self.threshold):
+                if not self.check_buffer_over_data_threshold(b):
                     if self.cold[b].observations['stored']:
                         if self.project_buffer_capacity(self.cold[b].observations['stored'][-1], b):
                             self.env.process(self.move_cold_to_hot(b))
